@@ -164,3 +164,53 @@ func c06R10(c *Ctx) {
 func c17R4(c *Ctx) {
 	shareRule(c, "C14.R1", "C17.R4", c14R1, "the run path writes nothing into the prepared workflow or the prepared step objects: those objects are shared by overlapping runs (parallel loop items, concurrent callers of Execute) and no lock covers them, so a lazily filled cache or memo field there is an unsynchronised write racing with the other runs' reads")
 }
+
+// C01: a loop whose semaphore never admits anything never finishes, and a step that stays `running` is never ended by
+// the fallback detector either.
+func c01R14(c *Ctx) {
+	shareRule(c, "C13.R2", "C01.R14", c13R2, "the loop step's semaphore admits at least one item at a time (capacity = the validated `parallelism`, whose schema has a minimum of 1), every item that ran releases its slot, and an item that could not get one leaves when the step is closed: otherwise the item goroutines wait for ever, the step stays `running`, nothing in the DAG is decided and Execute never returns")
+}
+
+// C04: a `wait_for` (or any other input) given as a list of tagged expressions must be wired like a single one.
+func c04R8(c *Ctx) {
+	shareRule(c, "C02.R7", "C04.R8", c02R7, "the expression-tree walkers (the YAML conversion first of all) descend into every element of maps and lists: a tagged expression that is a direct list item (`wait_for: [ !expr … ]`) is otherwise kept as a plain string, no dependency is created and nothing is evaluated, so the step starts although its prerequisite failed or is still running")
+}
+
+// C04: a condition that cannot be evaluated must end the run, not be treated as absent.
+func c04R9(c *Ctx) {
+	shareRule(c, "C07.R3", "C04.R9", c07R3, "a stage input whose expressions cannot be evaluated is never handed over in part: the failure is reported and the run is cancelled. An `enabled` or `stop_if` condition that is dropped because it failed to evaluate makes the providers treat the step as unconditional (`enabled == nil` means enabled)")
+}
+
+// C07: closing a closed channel, or sending on it, panics in a goroutine nothing recovers.
+func c07R10(c *Ctx) {
+	shareRule(c, "C12.R7", "C07.R10", c12R7, "every channel that is closed is closed and sent to under one mutex with a marker test (or is the run's output channel, closed once under the run lock behind the outputDone flag): a second close or a send after the close panics")
+}
+
+// C03: an output with a field that waits for a stage to be decided is producible once the step has completed.
+func c03R12(c *Ctx) {
+	shareRule(c, "C15.R8", "C03.R12", c15R8, "every stage that has outputs is decided (finished or impossible) by the time its step has completed — by the provider or by the run loop's completion sweep over ALL stages: otherwise a declared output that merely refers (with !wait-optional) to a stage the step did not take is never constructed, and the run returns an error although exactly that output was producible")
+}
+
+// C12: "closing always returns, and no notification starts after it has returned" needs every closer to cancel the step
+// and then wait for its goroutines.
+func c12R16(c *Ctx) {
+	shareRule(c, "C05.R4", "C12.R16", c05R4, "every Close/ForceClose marks the step closed, cancels the step context and waits on the step's WaitGroup on every return: a closer that skips the wait (for a step that already shows as finished, say) returns while the step goroutine is still sending its last notifications, and one that never cancels waits for a step that nothing stops")
+}
+
+// C14: what one preparation leaves behind in an engine-lifetime object decides what the next preparation of the same
+// text sees.
+func c14R7(c *Ctx) {
+	shareRule(c, "C10.R5", "C14.R7", c10R5, "the parse/prepare paths write no engine-lifetime object (provider, registry, executor) and no package-level variable: an `in progress` mark or a memo kept on the provider survives a failed preparation and makes later (or overlapping) preparations of the same text fail or share objects")
+}
+
+// C15: an optional expression object carries the ids of ITS group and parent nodes; sharing one object between two
+// uses lets the use prepared last overwrite them.
+func c15R9(c *Ctx) {
+	shareRule(c, "C10.R5", "C15.R9", c10R5, "the YAML conversion keeps no memo across calls (no package-level state, nothing on engine-lifetime objects): every tagged scalar becomes its own expression object. Preparation writes the group-node and parent-node paths INTO the optional / one-of objects, so two uses that share one object consult the group node of whichever use was prepared last, and a produced source is reported absent")
+}
+
+// C20: the engine entry point collects the whole tree of sub-workflow files into one context; every level must hand that
+// whole context (minus the file being loaded) down, or deeper levels are `not found`.
+func c20R10(c *Ctx) {
+	shareRule(c, "C11.R2", "C20.R10", c11R2, "the recursion through loop steps hands the context on with nothing but the file being loaded taken out (the recognised visited-set form): a level that passes on only the files its own steps name loses the files of deeper levels, which direct preparation with the flat context finds")
+}
